@@ -367,6 +367,8 @@ class Run:
             os.makedirs(os.path.join(self.dir, "harness", "src"), exist_ok=True)
             for f in ("oracle.rs", "stubs.rs"):
                 shutil.copy(os.path.join(VERIF, "harness", "src", f), os.path.join(self.dir, "harness", "src", f))
+            shutil.copytree(os.path.join(VERIF, "memchr-model"), os.path.join(self.dir, "memchr-model"),
+                            ignore=shutil.ignore_patterns("target", "Cargo.lock"), dirs_exist_ok=True)
             ct = open(os.path.join(vsrc, "Cargo.toml")).read().replace('path = "/repo"', 'path = "%s"' % REPO)
             open(os.path.join(vsrc, "Cargo.toml"), "w").write(ct)
             mt = open(os.path.join(vsrc, "src", "main.rs")).read().replace("../../harness/src/", "../../harness/src/")
@@ -412,7 +414,8 @@ class Run:
         shutil.copy(os.path.join(REPO, "Cargo.lock"), os.path.join(self.crate, "Cargo.lock"))
         # private snapshot of the memchr contract model as well
         mm = os.path.join(self.dir, "memchr-model")
-        shutil.copytree(os.path.join(VERIF, "memchr-model"), mm, ignore=shutil.ignore_patterns("target", "Cargo.lock"))
+        shutil.copytree(os.path.join(VERIF, "memchr-model"), mm, ignore=shutil.ignore_patterns("target", "Cargo.lock"),
+                        dirs_exist_ok=True)
         ct = open(os.path.join(self.crate, "Cargo.toml")).read().replace('path = "/verif/memchr-model"', 'path = "%s"' % mm)
         if REPO != "/repo":
             ct = ct.replace('path = "/repo"', 'path = "%s"' % REPO)
